@@ -1,7 +1,6 @@
 package mon
 
 import (
-	"bytes"
 	"encoding/json"
 	"fmt"
 	"math/rand/v2"
@@ -37,7 +36,8 @@ type c17YDoc struct {
 }
 
 // c17YWideChar picks a member of the non-ASCII alphabet, but not U+FEFF: at the start of a line YAML takes it for a byte
-// order mark and skips it (it is put inside quoted scalars only, see c17YBuild).
+// order mark and skips it, and with the character inside a scalar its reading of some valid documents goes wrong
+// (see c17.yamlfixed for the hand-written streams that carry it).
 func c17YWideChar(r *rand.Rand) string {
 	for {
 		if s := c17Wide[r.IntN(len(c17Wide))].s; s != "\ufeff" {
@@ -107,14 +107,6 @@ func c17YBuild(s c17YSpec) *c17YDoc {
 				n = 15 + r.IntN(25)
 			}
 			text := c17YText(r, s.Wide, n)
-			if s.Wide && r.IntN(3) == 0 {
-				// a zero width no-break space inside a scalar is a character like any other
-				i := r.IntN(len(text) + 1)
-				for i < len(text) && text[i]&0xC0 == 0x80 {
-					i++
-				}
-				text = text[:i] + "x\ufeffy" + text[i:]
-			}
 			e.line = add(key + `: "` + text + `"` + comment())
 		case 5, 6:
 			e.typ = 'm'
@@ -302,22 +294,6 @@ var kC17Y = run.NewKind("c17.yaml", func(c *run.Ctx, t c17YCase) *run.Fail {
 		opt = run.CLIOpt{Args: args, StdinFile: path, StdinSkip: int64(len(prefix))}
 	default:
 		opt = run.CLIOpt{Args: args, Stdin: whole}
-	}
-	if bytes.Contains(whole, []byte("x\ufeffy")) {
-		// The YAML decoder itself stumbles over some documents with a zero width no-break space inside a scalar (seen:
-		// "did not find expected key" hundreds of lines later in a document that is valid). Such a document cannot carry
-		// an injected fault: the stream without the fault must be accepted first.
-		var clean []string
-		for _, p := range t.Pre {
-			clean = append(clean, c17YBuild(p).lines...)
-			clean = append(clean, "---")
-		}
-		clean = append(clean, c17YBuild(t.Doc).lines...)
-		pre := run.CLI(run.CLIOpt{Args: args, Stdin: []byte(strings.Join(clean, term) + term)})
-		if pre.TimedOut || pre.StartErr != nil || pre.Code != 0 {
-			c.Inconclusive("yaml-decoder-rejects-the-document-without-the-fault")
-			return nil
-		}
 	}
 	res := run.CLI(opt)
 	if res.TimedOut || res.StartErr != nil {
